@@ -286,12 +286,21 @@ class DCAwareRoundRobinPolicy(LoadBalancingPolicy):
         # control connection startup/refresh
         if not self.local_dc and host.datacenter:
             if host.endpoint in self._endpoints:
+                unset_dc = self.local_dc
                 self.local_dc = host.datacenter
                 log.info("Using datacenter '%s' for DCAwareRoundRobinPolicy (via host '%s'); "
                          "if incorrect, please specify a local_dc to the constructor, "
                          "or limit contact points to local cluster nodes" %
                          (self.local_dc, host.endpoint))
                 del self._endpoints
+                # hosts whose datacenter is not known yet were filed under the unset local_dc;
+                # _dc() now resolves them to the inferred one, so move them along
+                with self._hosts_lock:
+                    unlocated = self._dc_live_hosts.pop(unset_dc, ())
+                    if unlocated:
+                        current_hosts = self._dc_live_hosts.get(self.local_dc, ())
+                        self._dc_live_hosts[self.local_dc] = current_hosts + tuple(
+                            h for h in unlocated if h not in current_hosts)
 
         dc = self._dc(host)
         with self._hosts_lock:
